@@ -1,9 +1,10 @@
 ----------------------------- MODULE MC_Series -----------------------------
 (* Exhaustive slice "Field": one SeriesSchema x one Series.                 *)
-EXTENDS Field, Json
+EXTENDS ValidateSeries, Json
 
 CONSTANTS MaxLen,        \* longest Series
-          Rich           \* TRUE: full check pool and check pairs
+          Rich,          \* TRUE: full check pool and check pairs
+          SliceName      \* "plain" | "parse"
 
 IntVals   == {iv(0), iv(1), iv(2)}
 FloatVals == {fv(-2), fv(1), fv(2), NA}
@@ -46,7 +47,8 @@ Reports == {"exclude_first", "exclude_last", "all"}
 Dtypes == {"none", "int64", "float64", "str", "bool", "object"}
 
 BaseSchema == [dtype |-> "none", nullable |-> FALSE, unique |-> FALSE,
-               report |-> "exclude_first", name |-> NA, checks |-> <<>>]
+               report |-> "exclude_first", name |-> NA, checks |-> <<>>,
+               coerce |-> FALSE, default |-> NA, drop |-> FALSE, index |-> NoIndexS]
 
 (* A: core constraints without user checks *)
 CoreSchemas ==
@@ -77,44 +79,76 @@ Pools == << <<"int64", IntVals, SchemasInt>>, <<"float64", FloatVals, SchemasFlo
             <<"object", StrVals, SchemasStr>>, <<"bool", BoolVals, SchemasBool>>,
             <<"Int64", MaskedVals, SchemasMasked>> >>
 
-VARIABLES S, inp0, lazy, inplace, inp, obj, aliased, errs, raised, pc, ci, out
+(* plain slice: the (schema, field) pairs explored, enumerated lazily *)
+InitPlain ==
+  \E p \in 1..Len(Pools) : \E k \in 0..MaxLen : \E cs \in [1..k -> Pools[p][2]] :
+  \E nm \in {NA, sv(2)} : \E ix \in Idxs(k) :
+  \E s \in (IF nm = NA THEN Pools[p][3] ELSE NamedCoreSchemas) : \E lz \in BOOLEAN :
+     st = Start(s, [name |-> nm, pd |-> Pools[p][1], cells |-> cs, idx |-> ix,
+                    idxpd |-> "int64", idxname |-> NA], lz, FALSE, {})
 
-M == INSTANCE ValidateSeries WITH Schemas <- {}, Fields <- {}, Modes <- BOOLEAN
+---------------------------------------------------------------------------
+(* parse slice: coerce / default / index coercion (C03, C04) *)
+ParsePools == << <<"int64", {iv(0), iv(1), iv(2)}, NA>>,
+                 <<"float64", {fv(2), fv(3), NA}, fv(2)>>,
+                 <<"object", {sv(10), sv(2), NA}, sv(10)>> >>
+ParseIdx(k) == { <<"int64", [i \in 1..k |-> iv(i - 1)]>>,
+                 <<"float64", [i \in 1..k |-> fv(2 * i)]>>,
+                 <<"object", [i \in 1..k |-> IF i = 1 THEN sv(10) ELSE sv(2)]>> }
+BaseIndexS == [dtype |-> "int64", nullable |-> FALSE, unique |-> FALSE, report |-> "exclude_first",
+               name |-> NA, checks |-> <<>>, coerce |-> FALSE]
+ParseIndexes == {NoIndexS} \cup { [BaseIndexS EXCEPT !.coerce = c, !.checks = ks] :
+                                    c \in BOOLEAN, ks \in {<<>>, <<Chk("gt", <<iv(1)>>)>>} }
+InitParse ==
+  \E p \in 1..Len(ParsePools) : \E k \in 0..MaxLen : \E cs \in [1..k -> ParsePools[p][2]] :
+  \E ix \in ParseIdx(k) :
+  \E T \in {"int64", "float64", "str"} : \E co \in BOOLEAN : \E df \in {NA, ParsePools[p][3]} :
+  \E nl \in BOOLEAN : \E ks \in {<<>>, <<Chk("ge", <<iv(1)>>)>>} : \E isch \in ParseIndexes :
+  \E lz \in BOOLEAN : \E ip \in BOOLEAN :
+     /\ (ks # <<>> => T # "str")
+     /\ ~(T = "str" /\ ParsePools[p][1] = "float64")     \* "1.5"/"1.0" are outside StrTable
+     /\ st = Start([BaseSchema EXCEPT !.dtype = T, !.coerce = co, !.default = df, !.nullable = nl,
+                                      !.checks = ks, !.index = isch],
+                    [name |-> NA, pd |-> ParsePools[p][1], cells |-> cs, idx |-> ix[2],
+                     idxpd |-> ix[1], idxname |-> NA], lz, ip, {})
 
-(* the (schema, field) pairs explored: enumerated lazily, never materialised *)
-Init == /\ \E p \in 1..Len(Pools) : \E k \in 0..MaxLen : \E cs \in [1..k -> Pools[p][2]] :
-           \E nm \in {NA, sv(2)} : \E ix \in Idxs(k) :
-           \E s \in (IF nm = NA THEN Pools[p][3] ELSE NamedCoreSchemas) :
-              /\ S = s
-              /\ inp0 = [name |-> nm, pd |-> Pools[p][1], cells |-> cs, idx |-> ix]
-        /\ lazy \in BOOLEAN
-        /\ inplace = FALSE
-        /\ inp = inp0 /\ obj = inp0 /\ aliased = TRUE
-        /\ errs = <<>> /\ raised = FALSE
-        /\ pc = "preprocess" /\ ci = 1 /\ out = M!NoOut
-Spec == Init /\ [][M!Next]_M!vars
-
-VerdictEqualsSemantics == M!VerdictEqualsSemantics
-IdentityOnSuccess == M!IdentityOnSuccess
-ReportExact == M!ReportExact
-CasesAreViolations == M!CasesAreViolations
-NoCallerMutation == M!NoCallerMutation
+Init == IF SliceName = "plain" THEN InitPlain ELSE InitParse
+Spec == Init /\ [][Next]_st
 
 (* back-end facts of Checks.tla on every explored pair *)
 BackendFacts ==
-  pc = "preprocess" =>
-    \A k \in 1..Len(S.checks) :
-       /\ BackendMeetsMeaning(S.checks[k], inp0.cells)
-       /\ TruncationIsPrefix(S.checks[k], inp0.cells)
-       /\ IgnoreNaHidesNulls(S.checks[k], inp0.cells)
+  st.pc = "preprocess" =>
+    \A k \in 1..Len(st.S.checks) :
+       /\ BackendMeetsMeaning(st.S.checks[k], st.inp0.cells)
+       /\ TruncationIsPrefix(st.S.checks[k], st.inp0.cells)
+       /\ IgnoreNaHidesNulls(st.S.checks[k], st.inp0.cells)
+CoercionFacts ==
+  st.pc = "preprocess" => \A T \in {"int64", "float64", "str"} : CoerceIdempotent(T, st.inp0.cells)
 
 ASSUME PrintT(ToJson([kind |-> "header", strtable |-> StrTable, retable |-> ReTable]))
 
-(* vector emission: once per (schema, field), from the lazy behaviour *)
-Emit ==
-  (pc = "done" /\ lazy) =>
-     PrintT(ToJson([kind |-> "series", schema |-> S, data |-> inp0,
-                    expect |-> [sat |-> FieldSat(S, inp0),
-                                errors |-> M!AllErrors,
-                                warnings |-> FieldWarnings(S, inp0)]]))
+(* what a run predicts, as a record the harness can compare *)
+Predict(s) == [kind |-> s.out.kind,
+               returned |-> IF s.out.kind = "ok" THEN s.out.returned ELSE [none |-> TRUE],
+               errors |-> IF s.out.kind = "ok" THEN <<>> ELSE s.out.errors,
+               input_after |-> s.inp]
+ShippedDevs == {"IndexFailureCasesByPosition", "IndexCoercionReportedTwice"}
+AsShipped(s) == Run(Start(s.S, s.inp0, s.lazy, s.inplace, ShippedDevs))
+
+(* vector emission *)
+EmitPlain ==
+  (st.pc = "done" /\ st.lazy) =>
+     PrintT(ToJson([kind |-> "series", schema |-> st.S, data |-> st.inp0,
+                    expect |-> [sat |-> SeriesSat(st.S, st.inp0),
+                                errors |-> AllErrors(st),
+                                warnings |-> FieldWarnings(st.S, st.inp0)]]))
+EmitParse ==
+  st.pc = "done" =>
+     PrintT(ToJson([kind |-> "series_run", schema |-> st.S, data |-> st.inp0,
+                    opts |-> [lazy |-> st.lazy, inplace |-> st.inplace],
+                    expect |-> Predict(st),
+                    asis |-> Predict(AsShipped(st)),
+                    devs |-> { d \in ShippedDevs :
+                                 Predict(Run(Start(st.S, st.inp0, st.lazy, st.inplace, {d}))) # Predict(st) }]))
+Emit == IF SliceName = "plain" THEN EmitPlain ELSE EmitParse
 =============================================================================
